@@ -11,6 +11,7 @@ written from the property text):
   doc_resolve    mloda.steward resolve_feature (plugin_docs) - the second, documented subclass filter
   e2e            mloda.run_all on universes created in permuted class-creation orders: which generated group's
                  calculate_feature ran / which error, python type of the returned table
+  e2e_links_framework  two sources on different frameworks + one link + consumer with a framework rule: python type of the result
 """
 from __future__ import annotations
 
@@ -46,6 +47,9 @@ def err_kind(e: BaseException) -> str:
         if pat in s:
             return k
     return "other:" + type(e).__name__ + ":" + s[:120]
+
+
+_UID = itertools.count(1000)  # feature names are unique per universe (resolve_feature scans every loaded class)
 
 
 class Cfws:
@@ -263,19 +267,24 @@ def o_expected(cf: Cfws, u: Dict[str, Any], name: str, feat: Dict[str, Any], api
 
 
 def finding_class(cf: Cfws, u: Dict[str, Any], exp: Dict[str, Any], impl: Dict[str, Any], api: Any, feat: Dict[str, Any], links: Any) -> Optional[str]:
-    """narrow predicates of the two known deviations (both: exactly one preferred group, the code rejects)"""
-    if len(exp["pref"]) != 1 or "err" not in impl:
-        return None
-    if impl["err"] == "multipleGroups":
-        # some admissible (subclass, superclass) pair has different admissible framework sets -> the superclass is not dropped
+    """narrow predicates of the two known deviations"""
+    # (1) links is an EMPTY set: every admissible group that declares index columns is hidden; the outcome is what the
+    #     property prescribes for the remaining groups
+    if links is not None and len(links) == 0 and any(eff_idx(u, c) is not None for c in exp["adm"]):
+        adm2 = [c for c in exp["adm"] if eff_idx(u, c) is None]
+        pref2 = [c for c in adm2 if not any(d != c and c in chain(u["parents"], d) for d in adm2)]
+        if "ok" in impl and pref2 == [impl["ok"][0]]:
+            return "empty-link-set-hides-indexed-groups"
+        if impl.get("err") == "noGroup" and not pref2:
+            return "empty-link-set-hides-indexed-groups"
+    # (2) exactly one preferred group, rejected as ambiguous: some admissible (subclass, superclass) pair has different
+    #     accessible framework sets (api ∩ rule ∩ available; the feature setting is not part of them), so the superclass stays
+    if len(exp["pref"]) == 1 and impl.get("err") == "multipleGroups":
         for d in exp["adm"]:
             for c in exp["adm"]:
                 if d != c and c in chain(u["parents"], d):
-                    # the code compares the accessible sets (api ∩ rule ∩ available), the feature setting is not part of them
                     if o_admissible_cfws(cf, u, d, api, None) != o_admissible_cfws(cf, u, c, api, None):
                         return "subclass-preference-requires-equal-framework-sets"
-    if impl["err"] == "noGroup" and links is not None and len(links) == 0 and eff_idx(u, exp["pref"][0]) is not None:
-        return "empty-link-set-hides-indexed-groups"
     return None
 
 
@@ -341,7 +350,7 @@ def suite_setup(ctx: Ctx, cf: Cfws) -> None:
     from mloda.core.abstract_plugins.components.feature_collection import Features
     from mloda.core.abstract_plugins.components.feature import Feature
 
-    n = ctx.budget(250, 4000)
+    n = ctx.budget(600, 6000)
     reqs, impls, metas = [], [], []
     for k in range(n):
         api_py, api_ids, shape = api_value(ctx, cf)
@@ -414,14 +423,14 @@ def mk_collector(pc: Optional[Dict[str, List[int]]], classes: Sequence[type]) ->
     return o
 
 
-def gen_links(ctx: Ctx) -> Optional[List[List[List[str]]]]:
+def gen_links(ctx: Ctx, max_links: int = 2) -> Optional[List[List[List[str]]]]:
     r = ctx.rng.random()
     if r < 0.6:
         return None
     if r < 0.68:
         return []
     pool = [["k"], ["j"], ["k", "j"], ["m"], ["z"]]
-    return [[ctx.rng.choice(pool), ctx.rng.choice(pool)] for _ in range(ctx.rng.randint(1, 2))]
+    return [[ctx.rng.choice(pool), ctx.rng.choice(pool)] for _ in range(ctx.rng.randint(1, max_links))]
 
 
 def mk_links(links: Optional[List[List[List[str]]]], any_cls: type) -> Any:
@@ -459,11 +468,11 @@ def suite_function_level(ctx: Ctx, cf: Cfws) -> None:
     from mloda.core.prepare.identify_feature_group import IdentifyFeatureGroupClass
     from mloda.core.core.engine import Engine
 
-    n = ctx.budget(300, 6000)
+    n = ctx.budget(1200, 20000)
     reqs: List[Dict[str, Any]] = []
     checks: List[Tuple[str, Dict[str, Any], Any]] = []
     for k in range(n):
-        u = gen_universe(ctx, cf, 100000 + ctx.rng.randrange(10**6))
+        u = gen_universe(ctx, cf, next(_UID))
         classes = build(u, cf, creation_orders(ctx, u["parents"], 2)[-1])
         if k < 60:
             check_universe_matches_spec(ctx, u, classes, cf)
@@ -513,7 +522,7 @@ def suite_function_level(ctx: Ctx, cf: Cfws) -> None:
         checks.append(("identify_fn", case, first))
         # oracle
         exp = o_expected(cf, u, name, feat, cfws or [cf.unknown_id], pc, links, range(nC))
-        judge(ctx, "identify_fn", case, cf, u, exp, first, cfws or [cf.unknown_id], feat, links, None)
+        judge(ctx, "identify_fn", case, cf, u, exp, first, cfws or [cf.unknown_id], feat, links, None, before_feature_setting=True)
         # --- Engine.set_compute_framework / get_compute_framework
         if "ok" in first:
             g_idx, s_ids = first["ok"]
@@ -553,16 +562,18 @@ def suite_function_level(ctx: Ctx, cf: Cfws) -> None:
             ctx.disagree(suite, case, impl, o2)
 
 
-def judge(ctx: Ctx, suite: str, case: Dict[str, Any], cf: Cfws, u: Dict[str, Any], exp: Dict[str, Any], impl: Dict[str, Any], api: Any, feat: Dict[str, Any], links: Any, model: Optional[Dict[str, Any]]) -> None:
+def judge(ctx: Ctx, suite: str, case: Dict[str, Any], cf: Cfws, u: Dict[str, Any], exp: Dict[str, Any], impl: Dict[str, Any], api: Any, feat: Dict[str, Any], links: Any, model: Optional[Dict[str, Any]], before_feature_setting: bool = False) -> None:
     """the property: exactly one preferred admissible group -> it is used with admissible frameworks; otherwise rejected"""
     pref = exp["pref"]
     if "ok" in impl:
         g, fws = impl["ok"]
         if len(pref) != 1 or pref[0] != g:
-            ctx.violation(suite, case, f"resolved to group {g}, but the admissible groups after preferring subclasses are {pref} (admissible: {exp['adm']})", impl, pref)
+            cls = finding_class(cf, u, exp, impl, api, feat, links)
+            ctx.violation(suite, case, f"resolved to group {g}, but the admissible groups after preferring subclasses are {pref} (admissible: {exp['adm']})", impl, pref, finding_class=cls)
         else:
-            okf = o_admissible_cfws(cf, u, g, api, feat["cfw"])
-            if not fws or any(f not in okf for f in fws):
+            # IdentifyFeatureGroupClass hands back the group's set; the feature's own setting is applied by set_compute_framework
+            okf = o_admissible_cfws(cf, u, g, api, None if before_feature_setting else feat["cfw"])
+            if not fws or any(f not in okf for f in fws) or (feat["cfw"] is not None and feat["cfw"] not in fws):
                 ctx.violation(suite, case, f"framework set {fws} of the resolved group is not within the admissible frameworks {okf}", impl, okf)
     else:
         if str(impl["err"]).startswith("other:"):
@@ -577,10 +588,10 @@ def judge(ctx: Ctx, suite: str, case: Dict[str, Any], cf: Cfws, u: Dict[str, Any
 def suite_doc_resolve(ctx: Ctx, cf: Cfws) -> None:
     from mloda.core.api.plugin_docs import resolve_feature
 
-    n = ctx.budget(60, 600)
+    n = ctx.budget(150, 1500)
     reqs, impls, metas = [], [], []
     for _ in range(n):
-        u = gen_universe(ctx, cf, 200000 + ctx.rng.randrange(10**6))
+        u = gen_universe(ctx, cf, next(_UID))
         classes = build(u, cf)
         for name in u["names"]:
             r = resolve_feature(name)
@@ -622,7 +633,8 @@ def read_events(path: str) -> List[Dict[str, Any]]:
 def suite_e2e(ctx: Ctx, cf: Cfws) -> None:
     from mloda.user import mloda
 
-    n = ctx.budget(160, 3000)
+    n = ctx.budget(500, 8000)
+    link_side = F.make_group(F.uniq("LinkSide_"), root_data={"zz_linkside": [0]})  # a class outside every universe
     log = os.path.join(ctx.extra["_tmp"], "events.jsonl")
     os.environ[F.LOG_ENV] = log
     reqs: List[Dict[str, Any]] = []
@@ -638,7 +650,7 @@ def suite_e2e(ctx: Ctx, cf: Cfws) -> None:
     ]
     plan: List[Tuple[Dict[str, Any], str, Dict[str, Any], Any, Any, Any, bool]] = []
     for k, (spec, feat, api_ids, links) in enumerate(fixed):
-        uid = 300000 + k
+        uid = next(_UID)
         # the fixed specs use position 0/1 for PyArrowTable / PandasDataFrame
         pa_id, pd_id = cf.id_of[F.PyArrowTable], cf.id_of[F.PandasDataFrame]
         m = {0: pa_id, 1: pd_id}
@@ -647,14 +659,14 @@ def suite_e2e(ctx: Ctx, cf: Cfws) -> None:
         api = None if api_ids is None else [m[i] for i in api_ids]
         plan.append((u, f"u{uid}a", feat, api, None, links, False))
     while len(plan) < n:
-        u = gen_universe(ctx, cf, 400000 + ctx.rng.randrange(10**6))
+        u = gen_universe(ctx, cf, next(_UID))
         name, feat = gen_feature(ctx, cf, u)
         api_py, api_ids, shape = api_value(ctx, cf)
         use_patch = ctx.rng.random() < 0.3
         pc = gen_collector(ctx, len(u["parents"]), allow_none=use_patch)
         if pc is not None and not use_patch and not pc["enabled"]:
             pc["enabled"] = [0]
-        links = gen_links(ctx)
+        links = gen_links(ctx, max_links=1)
         plan.append((u, name, feat, api_ids, pc, links, use_patch))
 
     for u, name, feat, api_ids, pc, links, use_patch in plan:
@@ -677,7 +689,7 @@ def suite_e2e(ctx: Ctx, cf: Cfws) -> None:
                 if ctxm:
                     ctxm.__enter__()
                 try:
-                    res = mloda.run_all([fobj], compute_frameworks=api_py, links=mk_links(links, classes[0]), plugin_collector=mk_collector(pc, classes))
+                    res = mloda.run_all([fobj], compute_frameworks=api_py, links=mk_links(links, link_side), plugin_collector=mk_collector(pc, classes))
                 finally:
                     if ctxm:
                         ctxm.__exit__()
@@ -736,6 +748,42 @@ def suite_e2e(ctx: Ctx, cf: Cfws) -> None:
                         ctx.violation("e2e", case, f"returned table of python type {t.__name__}, admissible frameworks give {[x.__name__ for x in ok_types]}", impl, [x.__name__ for x in ok_types])
 
 
+
+def suite_e2e_links_framework(ctx: Ctx, cf: Cfws) -> None:
+    """two root groups pinned to different frameworks, one link, a consumer with its own framework rule: the returned table
+    must have the data type of a framework admissible for the consumer (the framework sets fixed by set_compute_framework
+    are rewritten later by ResolveComputeFrameworks - outside Model/Resolve, judged by the oracle only)"""
+    from mloda.user import mloda
+    from mloda.core.abstract_plugins.components.feature import Feature
+    from mloda.core.abstract_plugins.components.link import Link, JoinSpec
+
+    fws = [F.PyArrowTable, F.PandasDataFrame, F.PythonDictFramework]
+    grid = [(a, b, jt, z) for a in range(3) for b in range(3) if a != b for jt in ("inner", "left", "right", "outer") for z in ("left", "right", "any")]
+    if ctx.quick:
+        grid = [g for g in grid if g[2] == "right" or ctx.rng.random() < 0.35]
+    for a, b, jt, z in grid:
+        A = F.make_group(F.uniq("LA_"), root_data={"k": [1, 2, 3], "a": [10, 20, 30]}, frameworks={fws[a]}, index_columns=[("k",)])
+        B = F.make_group(F.uniq("LB_"), root_data={"k": [2, 3, 4], "b": [200, 300, 400]}, frameworks={fws[b]}, index_columns=[("k",)])
+        zrule = None if z == "any" else {fws[a] if z == "left" else fws[b]}
+        Z = F.make_group(F.uniq("LZ_"), derived={"z": {"parents": ["a", "b"], "expr": ["add", ["col", "a"], ["col", "b"]]}}, frameworks=zrule)
+        case = {"left_fw": fws[a].__name__, "right_fw": fws[b].__name__, "jointype": jt, "consumer_rule": z}
+        try:
+            res = mloda.run_all([Feature("z")], compute_frameworks={fws[a], fws[b]}, links={Link(jt, JoinSpec(A, ("k",)), JoinSpec(B, ("k",)))}, plugin_collector=F.collector({A, B, Z}))
+            got: Any = sorted({type(t).__name__ for t in res})
+            types = [type(t) for t in res]
+        except Exception as e:
+            got, types = "error:" + str(e)[-120:], []
+        ctx.case("e2e_links_framework", case, True, jointype=jt, consumer_rule=z, outcome=str(got)[:40])
+        adm = [fws[a], fws[b]] if zrule is None else list(zrule)
+        ok_types = [f.expected_data_framework() for f in adm]
+        for t in types:
+            if t not in ok_types:
+                cls = None
+                if jt == "right" and z == "left" and t is fws[b].expected_data_framework():
+                    cls = "consumer-framework-rewritten-by-right-join-link"
+                ctx.violation("e2e_links_framework", case, f"consumer restricted to {[f.__name__ for f in adm]} returned a {t.__name__}", got, [x.__name__ for x in ok_types], finding_class=cls)
+
+
 # ------------------------------------------------------------------------------------------------
 
 
@@ -757,6 +805,7 @@ def run(ctx: Ctx) -> None:
         suite_function_level(ctx, cf)
         suite_doc_resolve(ctx, cf)
         suite_e2e(ctx, cf)
+        suite_e2e_links_framework(ctx, cf)
     finally:
         os.environ.pop(F.LOG_ENV, None)
         ctx.extra.pop("_tmp", None)
